@@ -4,6 +4,7 @@ package sched
 
 import (
 	"fmt"
+	"strings"
 
 	"verif/fsmodel"
 )
@@ -125,8 +126,28 @@ func init() {
 	extraTrees["v1odd"] = func() fsmodel.Tree {
 		t := Tree("v1")
 		t = append(t, fsmodel.Node{Path: ".fsutil-metadata", Kind: fsmodel.File, Perm: 0644, Mtime: t1 + 9, Data: fsmodel.Content(9, 4)},
-			fsmodel.Node{Path: "b/sock", Kind: fsmodel.Socket, Perm: 0755, Mtime: t1 + 8}, f("z", 8, 7, t1+10))
+			fsmodel.Node{Path: "b/sock", Kind: fsmodel.Socket, Perm: 0755, Mtime: t1 + 8}, f("z", 8, 7, t1+10),
+			// names and a link target that are not valid UTF-8 (a latin-1 tree): legal, and sent byte for byte
+			f("caf\xe9.txt", 9, 6, t1+11), f("caf\xe8.txt", 10, 5, t1+12),
+			fsmodel.Node{Path: "l\xff", Kind: fsmodel.Symlink, Perm: 0777, Mtime: t1 + 13, Link: "caf\xe9.txt"})
 		t.Sort()
+		return t
+	}
+	// names at the length limit of a directory entry, in the source and (with other content) in a prior destination
+	extraTrees["c7long"] = func() fsmodel.Tree {
+		n250, n255 := strings.Repeat("n", 250), strings.Repeat("q", 255)
+		return fsmodel.Tree{f("a", 1, 5, t1), f(n250, 2, 9, t1+1), d(n255, t1+2), f(n255+"/"+strings.Repeat("r", 255), 3, 40000, t1+3), f(n255+"/"+strings.Repeat("s", 241), 4, 3, t1+4), f("z", 5, 2, t1+5)}
+	}
+	extraTrees["c7long-old"] = func() fsmodel.Tree {
+		n250, n255 := strings.Repeat("n", 250), strings.Repeat("q", 255)
+		return fsmodel.Tree{f("a", 1, 5, t1), f(n250, 7, 11, t1+9), d(n255, t1+2), f(n255+"/"+strings.Repeat("r", 255), 8, 10, t1+9), f(n255+"/"+strings.Repeat("s", 241), 9, 3, t1+9), d("z", t1)}
+	}
+	// more entries than any window a sender could keep of what it announced (512 = 4 x 128)
+	extraTrees["fan700"] = func() fsmodel.Tree {
+		var t fsmodel.Tree
+		for i := 0; i < 700; i++ {
+			t = append(t, f(fmt.Sprintf("f%03d", i), 100+i, 1, t1+int64(i)))
+		}
 		return t
 	}
 	extraTrees["one5"] = func() fsmodel.Tree { return fsmodel.Tree{f("a", 1, 5, t1)} }
